@@ -314,6 +314,8 @@ class Parser:
             return self.__curcommand.check_next_arg(ttype, tvalue.decode("ascii"))
 
         if ttype == "left_bracket":
+            if not self.__curcommand.can_take("stringlist"):
+                return False
             self.__push_expected_bracket("right_bracket", b"}")
             self.__cstate = self.__stringlist
             self.__curstringlist = []
@@ -362,6 +364,10 @@ class Parser:
             return self.__check_command_completion(testsemicolon=False)
 
         if ttype == "left_parenthesis":
+            cmd = self.__curcommand
+            if not cmd.variable_args_nb or cmd.arguments or not cmd.can_take("test"):
+                # no test list can start here
+                return False
             self.__push_expected_bracket("right_parenthesis", b")")
             self.__set_expected("identifier")
             return True
@@ -380,6 +386,15 @@ class Parser:
                 return self.__check_command_completion(testsemicolon=False)
 
         if ttype == "comma":
+            condition = (
+                self.__curcommand.variable_args_nb
+                and self.__curcommand.arguments
+                and self.__expected_brackets
+                and self.__expected_brackets[-1][0] == "right_parenthesis"
+            )
+            if not condition:
+                # not between two tests of a test list
+                return False
             self.__set_expected("identifier")
             return True
 
@@ -421,6 +436,17 @@ class Parser:
             command = get_command_instance(tvalue.decode("ascii"), self.__curcommand)
             if command.get_type() == "test":
                 raise ParseError("%s may not appear as a first command" % command.name)
+            if command.must_follow is not None:
+                if self.__curcommand is None:
+                    prevcmd = self.result[-1] if len(self.result) != 0 else None
+                else:
+                    siblings = self.__curcommand.children
+                    prevcmd = siblings[-1] if len(siblings) != 0 else None
+                if prevcmd is None or prevcmd.name not in command.must_follow:
+                    raise ParseError(
+                        "the %s command must follow an %s command"
+                        % (command.name, " or ".join(command.must_follow))
+                    )
             if (
                 command.get_type() == "control"
                 and command.accept_children
@@ -450,6 +476,9 @@ class Parser:
         if ttype == "semicolon":
             if self.__curcommand.accept_children:
                 # a block is expected, not a semicolon
+                return False
+            if self.__curcommand.get_type() == "test":
+                # a test is never ended by a semicolon
                 return False
             self.__cstate = None
             if not self.__check_command_completion(testsemicolon=False):
